@@ -354,6 +354,7 @@ class Gen:
         self.constvals = {}
         self.vac_fns = []
         self.consts_done = {}
+        self.sharedprops = {}
 
     def emit(self, text, origin, fn=None):
         for k, line in enumerate(text.split('\n')):
@@ -400,6 +401,12 @@ class Gen:
                 if not os.path.exists(p):
                     raise GenError('lost anchor: file %s missing' % d[2])
                 self.sources[d[1]] = Source(d[2], open(p).read())
+                i += 1
+            elif cmd == 'sharedprops':
+                # //@ sharedprops label1,label2 = C01,C02 : clauses with these labels also serve these properties
+                labs, props = s[3:].strip()[len('sharedprops'):].split('=')
+                for lb in labs.strip().split(','):
+                    self.sharedprops.setdefault(lb.strip(), set()).update(x.strip() for x in props.split(','))
                 i += 1
             elif cmd == 'include':
                 p = os.path.join(self.units_dir, d[1])
@@ -713,7 +720,9 @@ class Gen:
                         k = loops[n - 1]
                         mm = re.match(r'^(\s*for\s+.+?\s+in\s+)(.*)$', body_lines[k])
                         if not mm:
-                            raise GenError('N14: loop %d of %s is not a for loop' % (n, qname))
+                            info.lost.append('loop %d is no longer a for loop' % n)
+                            inserts.pop(('loophdr', loops[n - 1]), None)
+                            break
                         body_lines[k] = mm.group(1) + a[5:] + ': ' + mm.group(2)
                         fired['N14'] = fired.get('N14', 0) + 1
             elif kind == 'at':
